@@ -44,6 +44,12 @@ class Check(PropertyCheck):
                 k2 = k1 + rng.randint(0, 2)
             cnt = rng.randint(1, 4)
             draws = [rng.randint(0, 50) for _ in range(rng.randint(0, 120))]
+            if i % 5 == 3:
+                # the public helper create_random_operation() called directly a few times before the pass
+                h = rng.randint(1, 4)
+                yield Scenario(["new", "genh " + " ".join(map(str, [j1, j2, m1, m2, d1, d2, al, rc, k1, k2, h, cnt] + draws))],
+                               {"kind": "scripted", "allow_less": al, "recirc": rc, "multi": int(k2 > 1), "count": cnt, "helper": h})
+                continue
             yield Scenario(["new", "gen " + " ".join(map(str, [j1, j2, m1, m2, d1, d2, al, rc, k1, k2, cnt] + draws))],
                            {"kind": "scripted", "allow_less": al, "recirc": rc, "multi": int(k2 > 1), "count": cnt})
 
@@ -52,9 +58,19 @@ class Check(PropertyCheck):
 
     def oracle(self, impl, scenario, index, line, out, ctx):
         res = []
-        if line.startswith("gen "):
-            xs = [int(t) for t in line.split()[1:12]]
-            j1, j2, m1, m2, d1, d2, al, rc, k1, k2, cnt = xs
+        if line.startswith(("gen ", "genh ")):
+            xs = [int(t) for t in line.split()[1:13]]
+            if line.startswith("genh "):
+                del xs[10]              # the number of helper calls
+            j1, j2, m1, m2, d1, d2, al, rc, k1, k2, cnt = xs[:11]
+            if line.startswith("genh ") and out.startswith("ops "):
+                for tok in out.split(" ; ")[0].split()[1:]:
+                    ms, dur = tok.split(":")
+                    ms = [int(t) for t in ms.split(",")]
+                    if not d1 <= int(dur) <= d2 or any(not 0 <= m < m2 for m in ms) or len(set(ms)) != len(ms) or \
+                            not (k1 <= len(ms) <= k2 if k2 > 1 else len(ms) == 1):
+                        res.append(("helper-operation", f"create_random_operation() returned {tok} (machines < {m2}, {k1}..{k2} "
+                                    f"per operation, durations {d1}..{d2})"))
             g, insts = impl.last_gen
             if out == "raise":
                 return res
